@@ -11,7 +11,7 @@ import re
 from lib.vlib import Inconclusive
 
 ALL_CMDS = ["helo", "mail", "rcpt", "data", "dataarg", "rset", "noop", "vrfy", "unimpl", "unknown", "short", "empty",
-            "garbage", "long", "starttls", "authother", "authplainnoarg", "authplain", "authlogin", "quit"]
+            "garbage", "long", "starttls", "authother", "authplainnoarg", "authbare", "authplain", "authlogin", "quit"]
 
 GEN_CFG = """SPECIFICATION GSpec
 CONSTANTS
@@ -53,8 +53,8 @@ def gen_cfg(cmds, depth, mode, mailkinds=("ok",), rcptkinds=("a1", "b"), bodykin
         d["constraint"] = "CONSTRAINT " + bound
         d["invariants"] = "TypeOK EnvelopeOnlyInTransaction DataNeedsRecipient RcptCountBounded DeliveryExact DiscardedNeverStored"
         d["properties"] = "PROPERTIES MailOnlyAfterGreeting RcptOnlyInTransaction EnvelopeDiscarded StepProps"
-    elif mode == "tour":
-        d["constraint"] = "CONSTRAINT %s\nVIEW TourView" % bound
+    elif mode in ("tour", "tour2"):
+        d["constraint"] = "CONSTRAINT %s\nVIEW %s" % (bound, "TourView" if mode == "tour" else "TourView2")
         d["invariants"] = "EmitTour"
     else:
         d["invariants"] = "Emit"
@@ -174,6 +174,8 @@ class Concretiser:
             elif k == "sizeok":
                 abs_["declared"] = rng.choice([1, self.max_bytes // 2, self.max_bytes - 1, self.max_bytes])
                 params = rng.choice([" SIZE=%d BODY=8BITMIME", " SIZE=%d", " BODY=7BIT SIZE=%d"]) % abs_["declared"]
+            elif k == "paramok":
+                params = rng.choice([" BODY=8BITMIME", " AUTH=<>", " BODY=7BIT AUTH=<>"])
             elif k == "sizebad":
                 abs_["sizeparse"] = False
                 params = " SIZE=12x4"
@@ -208,7 +210,7 @@ class Concretiser:
             "rset": "RSET", "noop": "NOOP", "vrfy": "VRFY someone", "unimpl": rng.choice(["SEND x", "SOML", "SAML", "EXPN list", "HELP", "TURN"]),
             "unknown": rng.choice(["FOOB", "XYZZY arg", "MAILX FROM:<a@b.c>", "RCPTT"]), "short": rng.choice(["HI", "A B", "OK."]),
             "empty": "", "garbage": "\x00\x01\xfe\xff\x80 \x7f\x1b[2J", "long": "XLONG" + "x" * 70000,
-            "starttls": "STARTTLS", "authother": "AUTH CRAM-MD5", "authplainnoarg": "AUTH PLAIN", "authplain": "AUTH PLAIN dGVzdAB0ZXN0AHRlc3Q=",
+            "starttls": "STARTTLS", "authother": "AUTH CRAM-MD5", "authplainnoarg": "AUTH PLAIN", "authbare": rng.choice(["AUTH", "AUTH ", "AUTH    "]), "authplain": "AUTH PLAIN dGVzdAB0ZXN0AHRlc3Q=",
             "authlogin": "AUTH LOGIN", "cred": "dXNlcg==", "credquit": "QUIT", "credempty": "", "quit": "QUIT",
         }
         text = simple[c]
@@ -247,7 +249,16 @@ class Concretiser:
             # "size" is read generously: a big body exceeds the limit by >= 300 bytes even when counted with LF
             # line ends (as the server stores it); a fitting one stays >= 300 under it even counted with CRLF
             nl = 1 if k == "big" else 2
+            align = rng.choice([0, 1, 2]) if k == "big" else 0   # 1/2: some line ends exactly at the limit (LF / CRLF counting)
             cur = sum(len(x) + nl for x in lines)
+            if align and cur + 10 < self.max_bytes:
+                anl = align
+                acur = sum(len(x) + anl for x in lines)
+                while acur + 900 + anl <= self.max_bytes - 5:
+                    lines.append("p" * 900)
+                    acur += 900 + anl
+                lines.append("a" * (self.max_bytes - acur - anl))     # this line ends exactly at max_bytes
+                cur = sum(len(x) + nl for x in lines)
             pad = "p" * 900
             while cur + len(pad) + nl <= target:
                 lines.append(pad)
@@ -422,12 +433,12 @@ def c03(run, args):
         return replay_file(run, args)
     quick = run.tier == "quick"
     vh = run.build_harness()
-    allmail = ("ok", "badsyntax", "sizebig", "sizebad", "badaddr", "origin", "null", "sizeok")
+    allmail = ("ok", "badsyntax", "sizebig", "sizebad", "badaddr", "origin", "null", "sizeok", "paramok")
     run.model_check("GenSmtp", gen_cfg(ALL_CMDS, 0, "mc", mailkinds=allmail, rcptkinds=("a1", "a2", "b", "c", "rej", "bad"),
                                        bodykinds=("ok", "nohdr", "unparseable", "big"), maxrcpts=(0, 1, 2, 3)), label="GenSmtp(contract model)")
     # (1) every edge of the state graph over the full alphabet (malformed lines, AUTH sub-dialogues, ...)
     tour = run.generate("GenSmtp", gen_cfg(ALL_CMDS, 80, "tour", mailkinds=allmail, rcptkinds=("a1", "rej", "bad") if quick else ("a1", "a2", "c", "rej", "bad"),
-                                           bodykinds=("ok", "nohdr", "unparseable"), maxrcpts=(1,) if quick else (2,), bound="Bound1" if quick else "Bound"), workers=4)
+                                           bodykinds=("ok", "nohdr", "unparseable", "big"), maxrcpts=(1,) if quick else (2,), bound="Bound1" if quick else "Bound"), workers=4)
     # (2) long random dialogues over the full alphabet
     sim = run.generate("GenSmtp", gen_cfg(ALL_CMDS, 50 if quick else 80, "sim", mailkinds=allmail, rcptkinds=("a1", "a2", "b", "c", "rej", "bad"),
                                           bodykinds=("ok", "nohdr", "unparseable")), simulate={"num": 300, "depth": 51 if quick else 81})
@@ -441,7 +452,7 @@ def c03(run, args):
     run.cov["exhaustive"] = True
     mk = lambda rng: Concretiser(rng, naming="local", policy=POLICIES[0], max_rcpt=3)
     stores = (lambda i: ["mem", "file"][(i + run.seed) % 2:][:1]) if quick else (lambda i: ["mem", "file"])
-    mkt = lambda rng: Concretiser(rng, naming="local", policy=POLICIES[0], max_rcpt=1 if quick else 2)
+    mkt = lambda rng: Concretiser(rng, naming="local", policy=POLICIES[0], max_rcpt=1 if quick else 2, max_bytes=5000)
     beh = behaviours_from(run, tour, lambda i: [mkt], stores, "tour")
     beh += behaviours_from(run, sim, lambda i: [mk], stores, "sim")
     vb = behaviours_from(run, valid, lambda i: [lambda rng: Concretiser(rng, naming="local", policy=POLICIES[0], max_rcpt=3, mixed_verbs=False)],
@@ -468,12 +479,13 @@ def c06(run, args):
         return replay_file(run, args)
     quick = run.tier == "quick"
     vh = run.build_harness()
-    mk_ = ("ok", "sizeok", "sizebig", "sizebad")
+    mk_ = ("ok", "paramok", "sizeok", "sizebig", "sizebad")
     bk_ = ("ok", "fitlarge", "big")
     run.model_check("GenSmtp", gen_cfg(["helo", "mail", "rcpt", "data", "rset", "quit"], 0, "mc", mailkinds=mk_, rcptkinds=("a1", "b"), bodykinds=bk_, maxrcpts=(2,)),
                     label="GenSmtp(size classes)")
-    tour = run.generate("GenSmtp", gen_cfg(["helo", "mail", "rcpt", "data", "rset"], 80, "tour", mailkinds=mk_, rcptkinds=("a1",), bodykinds=bk_, maxrcpts=(2,),
-                                           bound="Bound"), workers=4)
+    # 2-switch tour: every pair of consecutive edges (a refused command followed by each other command, ...)
+    tour = run.generate("GenSmtp", gen_cfg(["helo", "mail", "rcpt", "data", "rset"], 80, "tour2", mailkinds=mk_, rcptkinds=("a1",), bodykinds=bk_, maxrcpts=(2,),
+                                           bound="Bound1" if quick else "Bound"), workers=8)
     tour = [x for x in tour if any(a["c"] == "body" and a["k"] in ("big", "fitlarge") for a in x) or any(a["c"] == "mail" and a["k"] != "ok" for a in x)]
     run.cov["distinct_nontrivial"] += len({json.dumps(x, sort_keys=True) for x in tour})
     run.cov["exhaustive"] = True
